@@ -5,7 +5,7 @@ CONSTANTS
   MaxItems = 5
   MaxDepth = 4
   MaxScopes = 5
-  MaxExtras = 1
+  MaxExtras = 2
   Units = {2, 4, 8}
   EmitMod = 1
   EmitRem = 0
